@@ -14,7 +14,8 @@ ALL_TRAITS = ["Display", "Debug", "Binary", "Octal", "LowerHex", "UpperHex", "Lo
 PRELUDE = """#![allow(unused, non_camel_case_types, dead_code)]
 use core::fmt;
 use core::marker::PhantomData;
-/// implements no formatting trait at all
+/// implements no formatting trait at all (but the ordinary traits a user's own where clause may ask for)
+#[derive(Clone, Copy, PartialEq, Eq, PartialOrd, Ord, Hash, Default)]
 pub struct NoFmt;
 /// a wrapper that formats (under any trait) iff its parameter does
 pub struct W<T>(pub T);
@@ -82,7 +83,45 @@ class BCase:
     pass
 
 
+def gen_shared_field_case(rng, k):
+    """a generic enum whose WRAPPING enum-level format names field `_0` itself (next to `_variant`) under a trait X,
+    while a variant's own format names the same generic field under another trait Y: the impl needs both bounds"""
+    c = BCase()
+    c.k = k
+    c.notes = ["shared-wrap-field"]
+    trait = rng.choice([t for t in ALL_TRAITS if t != "Debug"])
+    an = F.ATTR_OF[trait]
+    params = rng.choice([["T"], ["T", "U"], ["T", "U"]])
+    X = rng.choice(ALL_TRAITS)
+    Y = rng.choice([t for t in ALL_TRAITS if t != X])
+
+    def ph(name, tr):
+        return "{%s%s}" % (name, ":" + LETTER[tr] if LETTER[tr] else "")
+    shared, sargs = rng.choice([("{_variant} (raw: %s)" % ph("_0", X), []), ("%s={_variant}" % ph("_0", X), []),
+                                ("%s|{0}" % ph("1", X), ["_variant", "_0"]), ("{_variant}/%s" % ph("f", X), ["f = _0"])])
+    t0 = rng.choice(["T", "W<T>", "W<W<T>>"])
+    vs = ["#[%s(%s)] V0(%s)" % (an, F.rust_lit(rng.choice(["text: %s", "%s", "[%s]"]) % ph("_0", Y)), t0),
+          "#[%s(\"code\")] V1(i32, %s)" % (an, ", ".join("PhantomData<%s>" % p for p in params))]
+    formatted = {"T"}
+    if len(params) > 1 and rng.random() < 0.6:
+        # a variant without a format of its own: printed through its single field under the derived trait (and under X)
+        vs.append("V2(W<U>)")
+        formatted.add("U")
+        c.notes.append("implicit")
+    if rng.random() < 0.5:
+        vs.reverse()
+    where = (" where T: Clone" if rng.random() < 0.3 else "")
+    c.decl = "#[derive(derive_more::%s)] #[%s(%s)] pub enum Ty<%s>%s { %s }" % (
+        trait, an, ", ".join([F.rust_lit(shared)] + sargs), ", ".join(params), where, ", ".join(vs))
+    c.trait = trait
+    c.params = params
+    c.formatted = formatted
+    return c
+
+
 def gen_case(rng, k):
+    if rng.random() < 0.07:
+        return gen_shared_field_case(rng, k)
     c = BCase()
     c.k = k
     trait = rng.choice(ALL_TRAITS + ["Display", "Debug", "Debug"])
@@ -242,14 +281,33 @@ def gen_case(rng, k):
         else:
             bounds = "#[%s(bound(%s))] " % (attr_name, ", ".join(preds))
         c.notes.append("user-bound")
+    # the type's OWN bounds: a where clause and / or inline bounds over the declared parameters, asking only for traits
+    # that both instantiation types (i32, NoFmt) have.  The impl must keep them AND get every inferred bound.
+    where, inline = "", {}
+    if rng.random() < 0.4:
+        own = ["Clone", "Copy", "PartialEq", "Sized", "Default", "Clone + PartialEq", "Ord"]
+        preds = []
+        for p in params:
+            r = rng.random()
+            if r < 0.45:
+                preds.append("%s: %s" % (p, rng.choice(own)))
+            elif r < 0.6:
+                inline[p] = rng.choice(own)
+        if rng.random() < 0.2:
+            preds.append("Option<%s>: Clone" % rng.choice(params))
+        if preds:
+            where = " where " + ", ".join(preds) + rng.choice(["", ","])
+            c.notes.append("own-where-clause")
+        if inline:
+            c.notes.append("own-inline-bounds")
     # make sure every parameter is used by some field (rustc E0392): add a PhantomData tail field to the first variant
-    gen = "<%s>" % ", ".join(params)
+    gen = "<%s>" % ", ".join(p + (": " + inline[p] if p in inline else "") for p in params)
     if is_enum:
         vs = []
         for vi, (own, body, kind) in enumerate(decl_vs):
             vs.append("%sV%d%s" % (own, vi, body))
         vs.append("#[%s(\"ph\")] Ph(%s)" % (attr_name, ", ".join("PhantomData<%s>" % p for p in params)))
-        c.decl = "#[derive(derive_more::%s)] %s%spub enum Ty%s { %s }" % (trait, bounds, shared_attr, gen, ", ".join(vs))
+        c.decl = "#[derive(derive_more::%s)] %s%spub enum Ty%s%s { %s }" % (trait, bounds, shared_attr, gen, where, ", ".join(vs))
     else:
         own, body, kind = decl_vs[0]
         used = mentioned(body + " " + (macro_ty or ""), params)
@@ -266,7 +324,11 @@ def gen_case(rng, k):
                 own = "#[%s(\"x\")] " % attr_name       # more than one field now: needs a format
                 formatted = set()
                 c.notes.append("no-field-formatted")
-        c.decl = "#[derive(derive_more::%s)] %s%spub struct Ty%s%s%s" % (trait, bounds, own, gen, body, "" if kind == "named" else ";")
+        # (a named struct's where clause precedes the braces, a tuple struct's follows the fields)
+        if kind == "named":
+            c.decl = "#[derive(derive_more::%s)] %s%spub struct Ty%s%s%s" % (trait, bounds, own, gen, where, body)
+        else:
+            c.decl = "#[derive(derive_more::%s)] %s%spub struct Ty%s%s%s;" % (trait, bounds, own, gen, body, where)
     if macro_ty is not None:
         c.decl = "macro_rules! mk%d { ($mt:ty) => { %s } } mk%d!(%s);" % (k, c.decl, k, macro_ty)
     c.trait = trait
